@@ -53,6 +53,13 @@ func zzShape(k int) zzGraph {
 		p0.Group, p1.Group = g, g
 		c0 := zzTask("c0", TaskDep{Head: p0, Partition: 0})
 		return zzGraph{[]*Task{s, p0, p1, c0}, []*Task{c0}}
+	case 7: // a shuffle-producer group whose members have their OWN (different) dependencies
+		a0, a1 := zzTask("a0"), zzTask("a1")
+		p0, p1 := zzTask("p0", zzDep(a0)), zzTask("p1", zzDep(a1))
+		g := []*Task{p0, p1}
+		p0.Group, p1.Group = g, g
+		c0 := zzTask("c0", TaskDep{Head: p0, Partition: 0})
+		return zzGraph{[]*Task{a0, a1, p0, p1, c0}, []*Task{c0}}
 	case 5: // single task
 		a := zzTask("a")
 		return zzGraph{[]*Task{a}, []*Task{a}}
@@ -135,6 +142,8 @@ func zzH_C03_state_tworoots() { zzEvalHarness(2, 3, true) }
 func zzH_C03_state_shuffle()  { zzEvalHarness(3, 2, true) }
 func zzH_C03_state_phases()   { zzEvalHarness(4, 2, true) }
 func zzH_C03_state_single()   { zzEvalHarness(5, 3, true) }
+func zzH_C03_state_groupdeps() { zzEvalHarness(7, 2, false) }
+func zzH_C03_deep_groupdeps()  { zzEvalHarness(7, 3, true) }
 
 func zzH_C03_deep_chain()    { zzEvalHarness(0, 5, true) }
 func zzH_C03_deep_single()   { zzEvalHarness(5, 6, true) }
